@@ -274,7 +274,8 @@ def pairing_r(group, inputs):
 
 
 ROUTINES = {'numeric': numeric, 'woks': woks, 'lwe': lwe_r, 'poly': lwe_r, 'extract': lwe_r, 'decomp': decomp_r, 'tlwe': lwe_r,
-            'mult': mult_r, 'keyswitch': keyswitch_r, 'pairing': pairing_r, 'gadget': lwe_r, 'kscreate': kscreate_r, 'tgswdec': tgswdec_r, 'gate': gates_r, 'blind': blind_r, 'params': params_r, 'io': io_r, 'keygen': keygen_r, 'iotext': lambda g, i: io_r(g, i, 'C05text')}
+            'mult': mult_r, 'keyswitch': keyswitch_r, 'pairing': pairing_r, 'gadget': lwe_r, 'kscreate': kscreate_r, 'tgswdec': tgswdec_r, 'gate': gates_r, 'blind': blind_r, 'params': params_r, 'io': io_r, 'keygen': keygen_r, 'iotext': lambda g, i: io_r(g, i, 'C05text'),
+            'io18': lambda g, i: (lambda r: r if r.get('confirmed') else io_r(g, i))(io_r(g, i, 'C18'))}
 
 
 def run(name, group, inputs):
